@@ -31,6 +31,24 @@ Fixpoint map_res {A B : Type} (f : A -> res B) (l : list A) : res (list B) :=
       end
   end.
 
+(* ---- random draws as oracle arguments ---- *)
+(* random.random(): a value in [0, 1) *)
+Definition draw_unit (u : Q) : res Q :=
+  if Qle_bool 0 u && Qlt_bool u 1 then Ok u else Raise BadDraw.
+(* random.randint(a, b): ValueError on an empty range, otherwise an integer in [a, b] *)
+Definition draw_int (a b k : Z) : res Z :=
+  if Z.ltb b a then Raise ValueError
+  else if Z.leb a k && Z.leb k b then Ok k else Raise BadDraw.
+(* random.uniform(a, b) = a + (b - a) * random.random() *)
+Definition draw_uniform (a b u : Q) : res Q :=
+  if Qle_bool 0 u && Qlt_bool u 1 then Ok (a + (b - a) * u) else Raise BadDraw.
+(* random.choice(seq): IndexError on an empty sequence, otherwise an index below len(seq) *)
+Definition draw_index (n k : Z) : res Z :=
+  if Z.leb n 0 then Raise IndexError
+  else if Z.leb 0 k && Z.ltb k n then Ok k else Raise BadDraw.
+Definition nth_res {A} (l : list A) (k : Z) : res A :=
+  match nth_error l (Z.to_nat k) with Some x => Ok x | None => Raise IndexError end.
+
 Lemma divq_ok a b : ~ b == 0 -> divq a b = Ok (a / b).
 Proof. intros H. unfold divq. destruct (Qeq_bool_spec b 0); [tauto|reflexivity]. Qed.
 Lemma divz_ok a b : b <> 0%Z -> divz a b = Ok (Z.div a b).
